@@ -42,10 +42,14 @@ func (o v2out) String() string {
 	return "ERR(" + t + "," + o.Shape + ")"
 }
 
-func runV2(env *e2.Env, mg *modelgraph.AuthorizationModelGraph, sp *Scripted, breadth int, o, r, sub string, rc *int) v2out {
+func runV2(env *e2.Env, mg *modelgraph.AuthorizationModelGraph, sp *Scripted, breadth int, o, r, sub string, rc *int, ctxTuples ...ref.Tuple) v2out {
 	q := commands.NewCheckQuery(commands.WithCheckQueryV2Datastore(env.DS), commands.WithCheckQueryV2Model(mg), commands.WithCheckQueryV2Planner(sp), commands.WithCheckQueryV2ConcurrencyLimit(breadth))
-	res, err := q.Execute(context.Background(), &commands.CheckCommandParams{StoreID: env.StoreID,
-		TupleKey: &openfgav1.CheckRequestTupleKey{Object: o, Relation: r, User: sub}, Context: e2.ReqCtx(rc)})
+	params := &commands.CheckCommandParams{StoreID: env.StoreID,
+		TupleKey: &openfgav1.CheckRequestTupleKey{Object: o, Relation: r, User: sub}, Context: e2.ReqCtx(rc)}
+	if len(ctxTuples) > 0 {
+		params.ContextualTuples = &openfgav1.ContextualTupleKeys{TupleKeys: e2.ToTKs(ctxTuples)}
+	}
+	res, err := q.Execute(context.Background(), params)
 	if err != nil {
 		se := commands.CheckCommandErrorToServerError(err)
 		m := err.Error()
@@ -89,6 +93,10 @@ func C03(o *core.Options) int {
 	}
 	if os.Getenv("VERIF_ONLY_FLAT") != "" { // development aid
 		models = nil
+	}
+	if os.Getenv("VERIF_ONLY_FASTPATH") != "" { // development aid
+		c03BottomUp(o, r)
+		return r.Finish()
 	}
 	r.Set("models_in_family", len(models))
 	nodes := e2.RequestNodes(ref.DefaultUniverse())
@@ -135,15 +143,18 @@ func C03(o *core.Options) int {
 					}
 					strong, weak := w.Holds(n.Obj, n.Rel, sub, rc)
 					v1.sp.Reset(map[string]string{})
-					d1 := v1.check(env, pm.ts, n.Obj, n.Rel, sub, rc)
-					srv := env.Check(n.Obj, n.Rel, sub, rc, nil)
+					if w.Alt != nil && subjKind(sub) != "object" {
+						continue // shadow worlds: only the reference-judged (object subject) clause
+					}
+					d1 := v1.check(env, pm.ts, n.Obj, n.Rel, sub, rc, w.Contextual...)
+					srv := env.Check(n.Obj, n.Rel, sub, rc, w.Contextual)
 					r.Eval(2)
 					outs := map[string]v2out{}
 					if pm.mg != nil {
 						for _, breadth := range []int{1, 10} {
 							EnumerateAssignments(func(a map[string]string) (map[string][]string, map[string]string) {
 								sp.Reset(a)
-								got := runV2(env, pm.mg, sp, breadth, n.Obj, n.Rel, sub, rc)
+								got := runV2(env, pm.mg, sp, breadth, n.Obj, n.Rel, sub, rc, w.Contextual...)
 								r.Eval(1)
 								off, ch := sp.Snapshot()
 								outs[fmt.Sprintf("b%d{%s}", breadth, assignKeyPrintable(ch, off))] = got
@@ -187,8 +198,11 @@ func C03(o *core.Options) int {
 								}
 								continue
 							}
-							if vd := e2.Verdict(v.V, strong, weak); vd != "" {
+							if vd := e2.Verdict(v.V, strong, weak); vd != "" && !e2.AltAccepts(w, v.V, n.Obj, n.Rel, sub, rc) {
 								sg := "v2/" + e2.DecisionSignature(vd, w, n.Obj, n.Rel, rc)
+								if w.Alt != nil && !strings.Contains(strings.TrimPrefix(sg, "v2/"), "/") {
+									sg += "/contextual-tuple-with-the-key-of-a-stored-tuple"
+								}
 								if vd == "V2-wrong-deny" || vd == "V3-missed-failure" {
 									if recursiveThroughUsersetAndTTU(w.M, ref.TypeOf(n.Obj), n.Rel) {
 										sg += "/relation-recursive-through-userset-and-ttu"
@@ -239,7 +253,7 @@ func C03(o *core.Options) int {
 						if !(srv.V == "F" && tuple.IsObjectRelation(sub) && v2breaking.CheckReason(pm.ts, tk) != "") {
 							sigs = append(sigs, fmt.Sprintf("unreported-divergence/v2=%s-v1=%s/%s-subject", srv.V, d1.V, kind))
 						}
-					} else if vd := e2.Verdict(srv.V, strong, weak); kind == "object" && !allowedSrv[srv.V] && vd != "" {
+					} else if vd := e2.Verdict(srv.V, strong, weak); kind == "object" && !allowedSrv[srv.V] && vd != "" && !e2.AltAccepts(w, srv.V, n.Obj, n.Rel, sub, rc) {
 						// the flag-on server gave an answer none of the enumerated raw runs gave (the engine's
 						// first-arrival rule makes error-vs-false timing dependent): classify it like a raw answer
 						uneval := false
@@ -274,7 +288,19 @@ func C03(o *core.Options) int {
 		}
 	}
 	so := e2.SweepOpts{K: 2, ServerOpts: []server.OpenFGAServiceV1Option{server.WithRequestTimeout(0), server.WithExperimentals("weighted_graph_check")}}
+	if os.Getenv("VERIF_ONLY_SHADOW") != "" { // development aid
+		if !o.Thorough() {
+			e2.ShadowExtraStride = 3
+		}
+		e2.ShadowSweep(r, models, so, body)
+		return r.Finish()
+	}
 	e2.Sweep(r, models, so, body)
+	// contextual tuple with the key of a stored tuple (different condition/context)
+	if !o.Thorough() {
+		e2.ShadowExtraStride = 3
+	}
+	e2.ShadowSweep(r, models, so, body)
 	// nested set operators over one object (ref.FlatFamily), up to 4 tuples
 	so.K, so.U = 4, ref.FlatUniverse()
 	nodes = e2.RequestNodes(so.U)
@@ -288,6 +314,7 @@ func C03(o *core.Options) int {
 		body(env, w)
 	})
 	nodes = e2.RequestNodes(ref.DefaultUniverse())
+	c03BottomUp(o, r)
 	return r.Finish()
 }
 
